@@ -18,4 +18,17 @@ PROPS = {
         cfgs_quick=["std-debug", "std-release", "nosimd-debug"],
         cfgs_thorough=ALL4,
     ),
+    "C14": dict(
+        theorems=["refill4_eq", "refill_counter", "refill4_counter", "refill_block"],
+        gen=g("C14"),
+        cfgs_quick=["std-debug", "std-release", "nosimd-debug"],
+        cfgs_thorough=ALL4,
+    ),
+    "C15": dict(
+        theorems=["get_set", "set_isolated", "bad_param", "set_is_direct", "stream64_eq_iff",
+                  "stream32_eq_iff", "stream64_eq_refill"],
+        gen=g("C15"),
+        cfgs_quick=["std-debug", "std-release"],
+        cfgs_thorough=ALL4,
+    ),
 }
